@@ -646,7 +646,7 @@ def main(tier):
     srcs = sources(tier)
     if tier == "quick":
         keep = ("baseline@10", "if_with_captures@10", "nested_if_initializer_in_body@10", "function_with_attributes@10", "device_configurations@11",
-                "value_info_everywhere@10", "nested_types_on_values@10", "all_attribute_kinds@10", "output_is_initializer_and_input@10", "quantization_annotations@10", "captured_sharding@11")
+                "value_info_everywhere@10", "nested_types_on_values@10", "all_attribute_kinds@10", "output_is_initializer_and_input@10", "quantization_annotations@10", "captured_sharding@11", "device_configuration_in_function_body@10", "function_with_subgraph@10")
         srcs = [s for s in srcs if s in keep]
     for label in srcs:
         model = build_source(label)
